@@ -29,11 +29,14 @@ class ScriptedStdin(io.StringIO):
     are served, then the operator 'walks away' so that a prompt loop cannot spin
     forever inside the harness"""
 
-    def __init__(self, text):
+    def __init__(self, text, on_read=None):
         super().__init__(text)
         self._empties = 0
+        self._on_read = on_read
 
     def readline(self, *a):
+        if self._on_read is not None:
+            self._on_read()       # (what happens while the operator is thinking)
         r = super().readline(*a)
         if r == "":
             self._empties += 1
@@ -123,16 +126,29 @@ class AdminEnv:
         finally:
             logging.disable(logging.CRITICAL)
 
+    def connection_open(self):
+        """does the tool hold a connection to the device right now (bus events)"""
+        state = {}
+        for e in self.bus.events:
+            if e["ev"] == "open":
+                state[e.get("h")] = True
+            elif e["ev"] == "close":
+                state[e.get("h")] = False
+        return any(state.values())
+
     def run(self, fn, opts, stdin="", getpass_answers=None):
         """-> (ok, stdout, exception)"""
         import admin.misc as misc
         buf = io.StringIO()
         old_stdin = sys.stdin
-        sys.stdin = ScriptedStdin(stdin)
+        on_prompt = getattr(self, "on_prompt", None)
+        sys.stdin = ScriptedStdin(stdin, on_prompt)
         answers = list(getpass_answers or [])
         old_gp = misc.getpass
 
         def fake_getpass(prompt=""):
+            if on_prompt is not None:
+                on_prompt()
             if not answers:
                 raise EOFError("operator script exhausted")
             return answers.pop(0)
